@@ -844,6 +844,22 @@ func (c *EvalCtx) call(e *Expr) EV {
 				nc.cur = c.st
 			}
 			return nc.Eval(args[0])
+		case "atlock":
+			// atlock(e): e evaluated in the state right after the most recent mutex acquisition of this path (after the
+			// havoc of shared fields); the entry state when the mutex was never taken
+			if c.replay {
+				specFail("atlock cannot be re-evaluated on replayed values")
+			}
+			nc := c.clone()
+			if c.st != nil && c.st.lockSnap != nil {
+				nc.st = c.st.lockSnap
+			} else {
+				nc.st = c.old
+			}
+			if c.cur == nil {
+				nc.cur = c.st
+			}
+			return nc.Eval(args[0])
 		case "snap":
 			if c.replay {
 				specFail("snap cannot be re-evaluated on replayed values")
